@@ -14,6 +14,7 @@ import (
 	"strings"
 	"sync"
 	"sync/atomic"
+	"time"
 
 	"github.com/elastic/go-seccomp-bpf/arch"
 
@@ -236,8 +237,14 @@ func checkC19(tier, replay string) int {
 			ctx.Violation("C19:files:"+t, fmt.Sprintf("%s: loader/stub file selection is wrong: %v", t, root.GoFiles), map[string]any{"target": t})
 		}
 	})
-	// stub bodies: no call expressions, no imports, Supported returns the literal false
-	stubFacts(ctx, filepath.Join(repo, "seccomp_unsupported.go"))
+	// the stubs are executed where that is possible here (js/wasm under node, every host call recorded); only if it is not,
+	// the stub file is judged by its syntax: no call expressions, no imports, Supported returns the literal false
+	if ran, note := c19StubRuntime(ctx, scratch); ran {
+		ctx.Cov["stubs_executed_on"] = "js/wasm under node: " + note
+	} else {
+		ctx.Cov["stubs_executed_on"] = "not executed (" + note + "); judged syntactically"
+		stubFacts(ctx, filepath.Join(repo, "seccomp_unsupported.go"))
+	}
 	// every GOARCH of the distribution list: table exactly for 386, amd64, arm, arm64
 	withTable := map[string]bool{"386": true, "amd64": true, "arm": true, "arm64": true}
 	var archs []string
@@ -275,7 +282,7 @@ func checkC19(tier, replay string) int {
 	}
 	sort.Strings(un)
 	ctx.Cov["constant_names_without_oracle_value"] = un
-	ctx.Cov["rule"] = "every GOOS/GOARCH pair of `go tool dist list` is built (thorough: additionally vetted, informational) with an overlay-added file per package that asserts, for every constant declared in the files selected for that target, equality with the vendored Linux UAPI value (two array-index expressions that only compile if equal; ENOSYS is 89 on linux/mips*, 38 elsewhere); file selection (loader vs stub) from go list; the stub file is parsed: no imports, no call expressions, Supported returns the literal false; GetInfo(goarch) for every GOARCH must have a table exactly for 386/amd64/arm/arm64; for every GOARCH a probe is built with an overlay that substitutes runtime.GOARCH in the library sources and run on the host: with the architecture left implicit, GetInfo(\"\") and Policy.Assemble must fail with an unsupported-architecture error on targets without tables and succeed on the four with tables; a program probe (700+ policies over all four tables: whole tables, three groups, all operations x all argument indices x operands) is built for the host and for GOARCH=386, both are run here, and every program digest must be identical; non-trivial = targets whose build with assertions succeeded"
+	ctx.Cov["rule"] = "every GOOS/GOARCH pair of `go tool dist list` is built (thorough: additionally vetted, informational) with an overlay-added file per package that asserts, for every constant declared in the files selected for that target, equality with the vendored Linux UAPI value (two array-index expressions that only compile if equal; ENOSYS is 89 on linux/mips*, 38 elsewhere); file selection (loader vs stub) from go list; the stubs are executed: a probe built for js/wasm runs under node with a preloaded hook that records every call into node's fs and process objects (the only system interface of such a program) while Supported, SetNoNewPrivs and 48 LoadFilter calls (no_new_privs x 4 flag words x 6 policies incl. invalid ones) run - Supported must be false and no host call may be recorded, a control window with a real getuid call shows that the hook sees calls (if node or the wasm support files are missing, the stub file is judged by its syntax instead: no imports, no call expressions, Supported returns the literal false); GetInfo(goarch) for every GOARCH must have a table exactly for 386/amd64/arm/arm64; for every GOARCH a probe is built with an overlay that substitutes runtime.GOARCH in the library sources and run on the host: with the architecture left implicit, GetInfo(\"\") and Policy.Assemble must fail with an unsupported-architecture error on targets without tables and succeed on the four with tables; a program probe (700+ policies over all four tables: whole tables, three groups, all operations x all argument indices x operands) is built for the host and for GOARCH=386, both are run here, and every program digest must be identical; non-trivial = targets whose build with assertions succeeded"
 	ctx.Sample(map[string]any{"target": "darwin/arm64", "assertion": "var _ = [1]struct{}{}[uint64(ActionAllow)-2147418112]"})
 	ctx.Assumptions = []string{"foreign targets are compiled and constant-evaluated by the real compiler, not executed", "vendored UAPI values from this image's linux/seccomp.h, linux/prctl.h, asm-generic/errno.h"}
 	return finishOrReplay(ctx, replay)
@@ -442,4 +449,59 @@ func c19CrossBuildPrograms(ctx *evid.Ctx, scratch string) int {
 		ctx.Violation("C19:cross-build-program:count", "the program probe prints a different number of results in the two builds", nil)
 	}
 	return n
+}
+
+// c19StubRuntime builds harness/cmd/stubprobe for js/wasm and runs it under node with the recording hook.
+func c19StubRuntime(ctx *evid.Ctx, scratch string) (bool, string) {
+	node, err := exec.LookPath("node")
+	if err != nil {
+		return false, "node is not installed"
+	}
+	gr, err := exec.Command("go", "env", "GOROOT").Output()
+	if err != nil {
+		return false, "go env GOROOT failed"
+	}
+	runner := ""
+	for _, d := range []string{"misc/wasm", "lib/wasm"} {
+		p := filepath.Join(strings.TrimSpace(string(gr)), d, "wasm_exec_node.js")
+		if _, err := os.Stat(p); err == nil {
+			runner = p
+		}
+	}
+	if runner == "" {
+		return false, "wasm_exec_node.js not found under GOROOT"
+	}
+	hook := filepath.Join(evid.Root(), "harness", "cmd", "stubprobe", "hook.js")
+	wasm, err := buildTool(scratch, "stubprobe.wasm", "./cmd/stubprobe", "GOOS=js", "GOARCH=wasm", "CGO_ENABLED=0")
+	if err != nil {
+		// the library must build for js/wasm (the cross-build phase reports that); here it only means no execution
+		return false, "probe does not build for js/wasm: " + clip(err.Error(), 200)
+	}
+	r := runCmd(120*time.Second, []string{"PATH=/usr/bin:/bin", "HOME=" + scratch}, scratch, node, "-r", hook, runner, wasm)
+	var line, hostLine string
+	for _, l := range strings.Split(r.Stdout+"\n"+r.Stderr, "\n") {
+		if strings.HasPrefix(l, "STUBPROBE ") {
+			line = l
+		}
+		if strings.HasPrefix(l, "HOSTCALLS ") {
+			hostLine = l[len("HOSTCALLS "):]
+		}
+	}
+	var calls struct {
+		Stubs   []string `json:"stubs"`
+		Control []string `json:"control"`
+	}
+	if line == "" || hostLine == "" || json.Unmarshal([]byte(hostLine), &calls) != nil || r.Exit != 0 {
+		return false, fmt.Sprintf("probe run gave no result (exit %d, %.200s)", r.Exit, r.Stderr)
+	}
+	if len(calls.Control) == 0 {
+		return false, "the hook did not see the control call (getuid): it cannot be trusted to see others"
+	}
+	if !strings.Contains(line, "supported=[false false]") {
+		ctx.Violation("C19:stub-runtime:supported", "on js/wasm (a non-Linux target) Supported() does not report false: "+line, map[string]any{"target": "js/wasm"})
+	}
+	if len(calls.Stubs) > 0 {
+		ctx.Violation("C19:stub-runtime:host-calls", fmt.Sprintf("on js/wasm the stubs (Supported, SetNoNewPrivs, 48 LoadFilter calls) called into the host: %v", calls.Stubs), map[string]any{"target": "js/wasm", "calls": calls.Stubs})
+	}
+	return true, line
 }
